@@ -396,6 +396,15 @@ pub fn gen_graph_project(rng: &mut Rng, o: &GraphOpts, n: usize, edges: &BTreeSe
         }
         p.add_file(&format!("sized{size}.txt.txtpp"), B(text.into_bytes()));
     }
+    if o.sized && rng.chance(1, 8) {
+        // a source that is one unterminated line: no line ending of its own to go by
+        let text = match rng.below(3) {
+            0 => "a single line without a line break".to_string(),
+            1 => "TXTPP#include lib/plain3.txt".to_string(),
+            _ => "-TXTPP#run printf 'l1\\nl2\\nl3\\n'".to_string(),
+        };
+        p.add_file("oneline.txt.txtpp", B(text.into_bytes()));
+    }
     if o.wide && rng.chance(1, 10) {
         // usually a few dozen, now and then several hundred (more than a 256-slot queue holds)
         let m = if rng.chance(1, 8) { rng.range(300, 420) } else { rng.range(20, 44) };
@@ -764,8 +773,22 @@ pub fn inject_error(rng: &mut Rng, p: &mut Project, src: &str) -> String {
         "command-fails",
         "unused-tag",
         "include-directory",
+        "temp-target-is-directory",
+        "temp-target-infix-source",
     ];
     let kind = *rng.pick(&kinds);
+    // an existing source spelled NAME.txtpp.EXT, seen from the directory of `src`
+    let infix: String = {
+        let dir = parent_rel(src);
+        p.files()
+            .map(|(q, _)| q.to_string())
+            .find(|q| {
+                let f = names::file_name(q);
+                f.contains(".txtpp.") && names::is_source_name(f) && q != src
+            })
+            .map(|q| rel_path(dir, &q))
+            .unwrap_or_else(|| "other.txtpp.txt".to_string())
+    };
     let bad: Vec<String> = match kind {
         "tag-while-listening" => vec!["TXTPP#tag TA".into(), "TXTPP#tag TB".into()],
         "prefixless-multiline" => vec!["TXTPP#run printf x".into()],
@@ -773,6 +796,8 @@ pub fn inject_error(rng: &mut Rng, p: &mut Project, src: &str) -> String {
         "include-missing" => vec!["TXTPP#include no_such_file.txt".into()],
         "command-fails" => vec!["-TXTPP#run exit 3".into()],
         "unused-tag" => vec!["TXTPP#tag NEVERUSED".into(), "-TXTPP#run printf stored".into()],
+        "temp-target-is-directory" => vec!["-TXTPP#temp .".into(), "-body".into()],
+        "temp-target-infix-source" => vec![format!("-TXTPP#temp {infix}"), "-body".into()],
         _ => vec!["TXTPP#include .".into()],
     };
     // at an element boundary (never between a directive and its continuation lines)
